@@ -1,7 +1,177 @@
-"""C11 (work in progress)"""
-MANIFEST = {'category': 'proof', 'text': 'wip', 'note': 'wip', 'technique': 'wip'}
-from contracts import c11_smt
-CONTRACTS = c11_smt.contracts()
-TRUSTED_BASE = []
-ASSUMPTIONS = []
-NOT_PROVED = []
+"""C11 - Bayesian optimisation simulates only inside bounds and trains on what it ran.
+
+Functions under contract (all obligations generated from the source in the tree at run time):
+  SMT tier (contracts/c11_smt.py; all dimensions, numbers of points / start points, bounds and values; callees by contract):
+    bo/utils.minimize [4 cases]                   scipy's result ARBITRARY; final clip through the alias locs_out = locs[ind_min] => inside the
+                                                  bounds; start points inside; value = min of the evaluated values, location = that run's clipped end point
+    AcquisitionBase._add_noise [4 noise settings] per column: zero variance => unchanged, else truncnorm on exactly [lo_i, hi_i] (loop invariant)
+    AcquisitionBase.acquire [2], MaxVar.acquire, ExpIntVar.acquire [2], UniformAcquisition.acquire: exactly n points, shape (n, dim), inside the bounds
+    RandMaxVar.acquire [2 samplers]               shape / exactly n points / acquired points are chain states; "inside the bounds" is REFUTED (F8, known finding)
+    BayesianOptimization.__init__ [2], update, _should_optimize, n_evidence, _get_acquisition_index, _resolve_initial_evidence [3],
+    _allow_submit, prepare_new_batch, ParameterInference.iterate (glue: prepare_new_batch only right after _allow_submit said yes)
+  CAS tier (contracts/c11_cas.py; sympy, all real values at the listed shapes): LCBSC / MaxVar evaluate_gradient = d evaluate
+  Bounded stand-in / replay vehicle: bounded/c11.py."""
+import os
+os.environ.setdefault('OMP_NUM_THREADS', '1')      # before GPy's OpenMP kernels are loaded by the bounded stand-in (see bounded/c11.py)
+
+MANIFEST = {
+    'category': 'proof',
+    'text': 'bo/utils.minimize is verified to return a point inside the bounds whatever scipy returns (optimiser result modelled as an arbitrary point; '
+            'the final clip acts through the python alias of the selected end point), every acquisition rule except RandMaxVar to return exactly n points of shape '
+            '(n, dim) inside the bounds for scalar / per-parameter / zero / no acquisition noise (loop invariants over columns, truncated-normal support = the bounds '
+            'in real arithmetic), and the evidence bookkeeping of BayesianOptimization (__init__ with precomputed evidence, update, acquisition index, initial-evidence '
+            'rounding, _allow_submit / prepare_new_batch / iterate: no batch is pending when acquire is called synchronously) against the ghost evidence sequence, '
+            'for all dimensions, batch sizes and counts; obligations are generated from the current source and discharged by z3/cvc5. The LCBSC and MaxVar '
+            'gradients are shown equal to the derivative of evaluate() by computer algebra on the extracted expressions. RandMaxVar.acquire: shape, count and '
+            '"acquired points are states of the chain" are live, "inside the bounds" is refuted (known finding C11-F8). BO runs with tiny budgets under a '
+            'schedule-driven client are the labelled bounded stand-in and replay vehicle.',
+    'note': 'Trusted: pyvc engine and spec tables; assumed library contracts (sanity-tested each run): numpy tile/clip/argmin/views, RandomState.uniform range, '
+            'scipy truncnorm / uniform rvs supports, scipy minimize returns a fresh vector of the length of x0, Owen-T partial derivatives (MaxVar gradient), '
+            'C10 (GPyRegression.update appends), C09 (MCMC chain shape). Floats are reals: a truncated-normal draw can miss an end point of the support by one ulp. '
+            'Bookkeeping contracts that build batch dicts are proved for two parameters with a surrogate column order different from the model order. '
+            'Schedule independence of the fitted evidence is a bounded result plus the proved "no pending batch at acquire" invariant (composition with C04 is a paper step).',
+    'technique': 'deductive: loop-invariant VCs from the real AST (pyvc, z3/cvc5), callees by contract + computer algebra (sympy) for the gradients; '
+                 'bounded: BO runs n_evidence <= 12 under 3-8 worker schedules, arbitrary-optimiser harness for minimize, numeric gradient check',
+}
+
+from contracts import c11_smt, c11_cas
+
+CONTRACTS = c11_smt.contracts() + c11_cas.contracts()
+
+TRUSTED_BASE = [
+    'pyvc engine (proxies, loop cutting, numpy/builtins spec tables: clip = min(max(x, lo), hi), argmin, basic slices and integer indices are views sharing storage) and pyvc.cas runner; z3/cvc5, sympy',
+    'scipy.optimize.minimize returns a freshly allocated 1-d array x of the length of x0 and a value fun; NOTHING else is assumed (x arbitrary, bounds possibly violated)',
+    'python list of arrays: locs[k] returns the stored ndarray object itself (alias), modelled as a view of row k of one storage (contracts/c11_smt.py::ArrList)',
+    'numpy.tile(vector, (n, 1)) = n copies of the row; tile(0-d, d) = d copies; RandomState.uniform(low, high, size) in [low, high] for low <= high; permutation(a) = rows of a in some order',
+    'scipy.stats.truncnorm.rvs(a, b, loc, scale, size): needs scale > 0 and a < b; draw k lies in [loc_k + a_k*scale, loc_k + b_k*scale]',
+    'scipy.stats.uniform(loc, scale).rvs(size=(n, d)): needs scale > 0; entry (r, j) in [loc_j, loc_j + scale_j]',
+    'C10 (assumed callee contract): GPyRegression.update(x, y) appends: X\' = X ++ x, Y\' = Y ++ y, n_evidence\' = n_evidence + len(x)',
+    'C09 (assumed callee contract): mcmc.metropolis / mcmc.nuts return an (n_samples, dim) matrix of chain states; nothing relates the states to model.bounds',
+    'CAS tier: scipy norm.cdf = Phi((x - loc)/scale); skewnorm.cdf = Phi(z) - 2 T(z, a); Owen-T partials dT/dh = -phi(h) erf(a h/sqrt 2)/2, dT/da = exp(-h^2(1+a^2)/2)/(2 pi (1+a^2)) (assumed identities, checked numerically against scipy.special.owens_t)',
+    'Opaque values (contracts/c11_smt.py::Opaque): GP predictions, kernel matrices and densities inside ExpIntVar.acquire / MaxVar.acquire absorb arithmetic; any use in control flow, as a length or in the returned points is OutOfSubset',
+]
+ASSUMPTIONS = [
+    'A-REAL: floats are reals. In floats xi + std*((hi - xi)/std) can exceed hi by one ulp, so a truncated-normal draw exactly at an end point of its support could leave the box by an ulp (probability ~0; never observed in the bounded runs, which test exact inclusion)',
+    'A-INT: integers are mathematical; A-LOG: logging (and BayesianOptimization._report_batch, which only formats a log message) has no effect',
+    'bounds are well-formed: lo_i <= hi_i (minimize), lo_i < hi_i for the acquisition rules (a degenerate bound with positive noise makes scipy raise ValueError: a crash, not a point outside the bounds); noise variances >= 0 (_check_noise_var); n_inits >= 1',
+    'prior.rvs returns an (n, dim) matrix, or a length-n vector when dim = 1 (ModelPrior.rvs); ModelPrior.rvs(size=None) is modelled as a (dim,) vector (for dim = 1 the real one returns a scalar, which RandMaxVar(init_from_prior=True) cannot index: a crash outside the statement)',
+    'batches handed to update have batch_size rows per output (C04/C18); batch dict / evidence bookkeeping contracts use two parameters, surrogate column order (b, a) vs model order (a, b)',
+    'evidence invariant X = precomputed ++ concat(consumed params): __init__ establishes it, update preserves it (one step each, machine-checked); the induction over the run is a paper step',
+    'synchronous schedule independence: proved = acquire is only reached with no pending batch (AllowSubmit + PrepareNewBatch + Iterate glue); that the GP state then is a function of the consumed batches only uses C04 (in-order consumption) and C10 - paper step; bounded runs confirm',
+    'termination of RandMaxVar\'s retry loop / MCMC and of scipy are not proved; exceptions raised inside callees (mcmc "bad initialization", GPy) are not modelled',
+]
+NOT_PROVED = [
+    'for every acquisition rule: RandMaxVar.acquire "lies inside the user\'s bounds" is REFUTED when the prior support is not contained in the bounds (known finding C11-F8); proved instead: every acquired point is a state of the chain, whose initial point is inside the bounds',
+    'with synchronous acquisition the fitted evidence is the same for every worker schedule: bounded (3-8 schedules x 6 configurations) + the proved invariant "no pending batch at acquire"; the composition with C04 is a paper step',
+    'acquisition gradients equal the derivatives: proved by CAS at the listed shapes, for v > 0, beta_t > 0, sigma_n^2 > 0, prior density > 0; MaxVar additionally assumes the two Owen-T partial derivatives; ExpIntVar has no analytic gradient in the code (numeric in scipy)',
+    'for all numbers of parameters: the batch-dict bookkeeping (BayesianOptimization.__init__/update/prepare_new_batch) is proved for two parameters only; _resolve_initial_evidence default for dim 1..5',
+]
+
+
+# ------------------------------------------------------------------------------------------------ sanity of assumed contracts
+def sanity():
+    import numpy as np
+    import scipy.optimize
+    import scipy.stats as ss
+    from scipy.special import owens_t
+    out = []
+    lst = [np.array([5.0, 6.0]), np.array([7.0, 8.0])]
+    o = lst[1]
+    o[0] = np.clip(o[0], 0.0, 1.0)
+    out.append(('list element is the stored array (alias); clip = min(max(x, lo), hi)', lst[1][0] == 1.0 and float(np.clip(-3.0, 0.0, 1.0)) == 0.0 and float(np.clip(0.5, 0.0, 1.0)) == 0.5))
+    out.append(('tile(vector, (n, 1)) and tile(0-d, d)', np.tile(np.array([1.0, 2.0]), (3, 1)).tolist() == [[1.0, 2.0]] * 3 and np.tile(np.asanyarray(0.3), 2).tolist() == [0.3, 0.3]))
+    a = np.arange(6.0).reshape(3, 2)
+    col = a[:, 1]
+    col[:] = -1
+    out.append(('column slices are views; np.stack(list of pairs) is (d, 2)', a[:, 1].tolist() == [-1.0] * 3 and np.stack([(0, 1), (2, 3)]).shape == (2, 2)))
+    rs = np.random.RandomState(0)
+    u = rs.uniform(-1.5, 0.25, 2000)
+    out.append(('RandomState.uniform(low, high, size) within [low, high]', bool((u >= -1.5).all() and (u <= 0.25).all()) and -1.5 <= np.random.uniform(-1.5, 0.25) <= 0.25))
+    m = np.arange(12.0).reshape(6, 2)
+    pm = rs.permutation(m)
+    out.append(('RandomState.permutation(matrix) = its rows in some order', sorted(map(tuple, pm)) == sorted(map(tuple, m))))
+    x0 = np.array([0.2, 0.3, 0.1])
+    r = scipy.optimize.minimize(lambda z: float(np.sum((z - 2) ** 2)), x0, method='L-BFGS-B', bounds=[(0, 1)] * 3, options={'maxiter': 5})
+    out.append(('scipy minimize: result x is a fresh vector of the length of x0, fun a scalar', r['x'].shape == (3,) and r['x'] is not x0 and np.ndim(r['fun']) == 0))
+    r2 = scipy.optimize.minimize(lambda z: 0.0, x0, method=lambda fun, x0, args=(), **kw: scipy.optimize.OptimizeResult(x=np.array([9.0, 9.0, 9.0]), fun=-1.0, success=True))
+    out.append(('scipy minimize hands a callable method\'s result through (bounded harness)', r2['x'].tolist() == [9.0] * 3 and r2['fun'] == -1.0))
+    xi = np.clip(rs.uniform(-1, 1, 4000), -1, 1)
+    xi[:50], xi[50:100] = 1.0, -1.0
+    ok = True
+    for std in (1e-3, 0.3, 30.0):
+        t = ss.truncnorm.rvs((-1 - xi) / std, (1 - xi) / std, loc=xi, scale=std, size=len(xi), random_state=rs)
+        ok = ok and t.shape == xi.shape and bool((t >= -1).all() and (t <= 1).all())
+    out.append(('truncnorm.rvs(a, b, loc, scale) stays in [loc + a*scale, loc + b*scale]', ok))
+    try:
+        ss.truncnorm.rvs(np.array([0.0]), np.array([0.0]), loc=np.array([1.0]), scale=0.5, size=1, random_state=rs)
+        ok = False
+    except ValueError:
+        ok = True
+    out.append(('truncnorm.rvs raises ValueError unless a < b', ok))
+    uu = ss.uniform(np.array([-1.0, 2.0]), np.array([0.5, 3.0])).rvs(size=(500, 2), random_state=rs)
+    out.append(('uniform(loc, scale).rvs(size=(n, d)) within [loc_j, loc_j + scale_j]', uu.shape == (500, 2) and bool((uu >= [-1.0, 2.0]).all() and (uu <= [-0.5, 5.0]).all())))
+    out.append(('np.percentile returns a scalar', np.ndim(np.percentile(np.arange(5.0)[:, None], 1.0)) == 0))
+    # CAS-tier library models
+    ok = True
+    for z, a_ in ((0.3, 0.7), (-1.2, 0.2), (2.0, 0.95)):
+        ok = ok and abs(ss.skewnorm.cdf(z * 1.7 + 0.4, a_, loc=0.4, scale=1.7) - (ss.norm.cdf(z) - 2 * owens_t(z, a_))) < 1e-10
+        ok = ok and abs(ss.norm.cdf(z * 1.7 + 0.4, loc=0.4, scale=1.7) - 0.5 * (1 + __import__('math').erf(z / 2 ** 0.5))) < 1e-12
+        h = 1e-6
+        import math
+        dT_dh = (owens_t(z + h, a_) - owens_t(z - h, a_)) / (2 * h)
+        dT_da = (owens_t(z, a_ + h) - owens_t(z, a_ - h)) / (2 * h)
+        ok = ok and abs(dT_dh - (-math.exp(-z * z / 2) / math.sqrt(2 * math.pi) * math.erf(a_ * z / math.sqrt(2)) / 2)) < 1e-7
+        ok = ok and abs(dT_da - math.exp(-z * z * (1 + a_ * a_) / 2) / (2 * math.pi * (1 + a_ * a_))) < 1e-7
+    out.append(('skewnorm.cdf = Phi - 2 T(Owen); norm.cdf = Phi((x-loc)/scale); the two Owen-T partial derivatives (finite differences)', bool(ok)))
+    import sympy as sp
+    f = c11_cas._exact_consts(compile('def f(x):\n    return (2. * x) ** .5 + 1.5\n', '<t>', 'exec'))
+    g = {}
+    exec(f, g)
+    out.append(('CAS runner: float literals enter as exact rationals', g['f'](sp.pi) == sp.sqrt(2 * sp.pi) + sp.Rational(3, 2)))
+    return out
+
+
+# ------------------------------------------------------------------------------------------------ bounded stand-in, replay
+_bounded_cache = {}
+
+
+def bounded(tier, seed):
+    from bounded import c11 as b
+    key = (tier, seed)
+    if key not in _bounded_cache:
+        _bounded_cache[key] = b.run(tier, seed)
+    return _bounded_cache[key]
+
+
+FAMILY = [('minimize', 'minimize'), ('AcquisitionBase.', 'add-noise'), ('UniformAcquisition', 'add-noise'), ('RandMaxVar', 'randmaxvar'),
+          ('MaxVar.acquire', 'bo'), ('ExpIntVar', 'bo'), ('BayesianOptimization', 'bo'), ('ParameterInference', 'bo'),
+          ('LCBSC.evaluate_gradient', 'gradient'), ('MaxVar.evaluate_gradient', 'gradient')]
+_replay_cache = {}
+
+
+def replay_refuted(cname, rf):
+    """a failing native input for a refuted obligation: the bounded cases of the family the contract belongs to (thorough grid), filtered by the clause"""
+    from bounded import c11 as b
+    fam = next((f for p, f in FAMILY if cname.startswith(p)), None)
+    if fam is None:
+        return dict(found=False, note='no native family for %s' % cname)
+    if fam not in _replay_cache:
+        _replay_cache[fam] = [f for g in b.run('thorough' if fam in ('minimize', 'add-noise', 'randmaxvar') else 'quick', 0, which=(fam,)) for f in g['failures']]
+    fails = _replay_cache[fam]
+    kind = rf.get('kind', '')
+    want = None
+    if fam == 'randmaxvar':
+        want = 'c11:randmaxvar-point-count' if 'number of points' in kind else ('c11:prior-support-not-in-bounds' if 'inside the bounds' in kind else None)
+    if fam == 'gradient':
+        rule = 'lcbsc' if cname.startswith('LCBSC') else 'maxvar'
+        fails = [f for f in fails if f['input'].get('rule') == rule]
+    pick = [f for f in fails if want is None or f['signature'] == want]
+    if pick:
+        return dict(found=True, input=pick[0]['input'], observed=pick[0]['what'], signature=pick[0]['signature'])
+    return dict(found=False, searched='bounded cases of family %s' % fam, other_failures=[f['signature'] for f in fails])
+
+
+def replay_input(inp):
+    """True iff the property holds on this input (a bounded-failure record {signature, what, input} is unwrapped)"""
+    from bounded import c11 as b
+    return b.replay_input(inp)
